@@ -471,6 +471,58 @@ def _short(t):
     return t if len(s) < 3000 else s[:3000] + "..."
 
 
+def coqchk(run, modules):
+    """thorough tier: re-check the compiled libraries with the independent checker and hold its axiom list against the
+    allowed set (DESIGN section 5)."""
+    import re
+    import subprocess
+    with vlib._Lock("build.lock"):
+        try:
+            p = subprocess.run(["coqchk", "-silent", "-o", "-Q", vlib.COQ, "Outrank"] + modules, cwd=vlib.COQ, timeout=1500,
+                               stdout=subprocess.PIPE, stderr=subprocess.STDOUT, text=True)
+            rc, out = p.returncode, p.stdout
+        except subprocess.TimeoutExpired:
+            rc, out = 124, "timeout"
+    axioms = []
+    m = re.search(r"\* Axioms:(.*?)\n\s*\n\* Constants", out, re.S)
+    if m:
+        axioms = [a.strip() for a in m.group(1).split("\n") if a.strip() and a.strip() != "<none>"]
+    allowed = {"Coq." + ".".join(a.split(".")[:-1]) + "." + a.split(".")[-1] for a in vlib.STD_REAL_AXIOMS}
+    short = {a.split(".")[-1] for a in vlib.STD_REAL_AXIOMS}
+    bad = [a for a in axioms if a.split(".")[-1] not in short]
+    clean = rc == 0 and m is not None and not bad and all(k in out for k in (
+        "relying on type-in-type: <none>", "relying on unsafe (co)fixpoints: <none>", "positivity is assumed: <none>"))
+    run.oblige("coqchk -o " + " ".join(modules), clean, ("axioms: " + ", ".join(axioms)) if clean else out[-800:])
+    if not clean:
+        run.violation("broken-obligation", "coqchk", found_input=False, extra=out[-2000:])
+    run.cov["coqchk_axioms"] = axioms
+    return clean
+
+
+def large_supporting(run, pid, flag, sizes=((100000, 50, 30), (1000000, 40, 25))):
+    """thorough tier: pairs too long for the quadratic Coq model; expected value from py_terms (the Python transcription
+    that is cross-checked against every Coq evaluation of the run).  A disagreement is a violation with that pair."""
+    cases = []
+    for n, kx, ky in sizes:
+        X = [run.rng.randrange(kx) for _ in range(n)]
+        Y = [(x * 7 + run.rng.randrange(ky)) % ky if run.rng.random() < 0.3 else run.rng.randrange(ky) for x in X]
+        cases.append({"Y": Y, "X": X, "flag": flag, "fam": "large-supporting"})
+    res = vlib.run_impl("impl_c01.py", {"cases": [{"Y": c["Y"], "X": c["X"], "flag": c["flag"]} for c in cases]})["results"]
+    rep = []
+    for c, r in zip(cases, res):
+        ok, info = compare(c, r, py_terms(c["Y"], c["X"], c["flag"]))
+        run.evaluations += 1
+        rep.append({"n": len(c["Y"]), "ok": ok, "impl": info.get("impl"), "expected": info["model"], "tolerance": info["tolerance"]})
+        if not ok:
+            small = shrink_pair_case(pid, c)
+            run.violation("counterexample", "correspondence on a long pair (expected value from the Python transcription of the model)",
+                          case=small, impl=info.get("impl", info.get("impl_error")), model={"value": info["model"]},
+                          clause="score = model value on a pair of length %d" % len(c["Y"]))
+    run.oblige("correspondence:long pairs (n = 10^5, 10^6), impl = eval(py_terms) within tolerance", all(r["ok"] for r in rep),
+               json.dumps(rep)[:400])
+    run.cov["long_pairs_supporting"] = rep
+
+
 # ---------------------------------------------------------------------------
 
 def check(run, replay):
@@ -498,8 +550,10 @@ def check(run, replay):
                         obligation="correspondence:impl = eval(model terms) within 8*2^-24*(sum|terms|+1e-6)")
     run.cov["input_distribution"] = hist
     run.cov["exhaustive"] = False
-    if run.tier == "thorough":
+    if run.tier == "thorough" and replay is None:
         run.cov["exhaustive_small_scope"] = "all pairs of length <= 5 over 3 codes (66429 pairs) included"
+        large_supporting(run, "C01", False)
+        coqchk(run, ["Outrank.Props.C01", "Outrank.Props.C02", "Outrank.Props.C03"])
     run.samples = [{"Y": c["Y"][:40], "X": c["X"][:40], "flag": c["flag"], "n": len(c["Y"]), "fam": c.get("fam")}
                    for c in cases[:4]]
     run.assumptions += [
